@@ -375,6 +375,10 @@ int vmd_server_run(const VmdServerConfig *cfg) {
         fprintf(stderr, "[vmd] Listening on %s (pid %d)\n", sock_path, (int)getpid());
     }
 
+    /* nvm_crc32() fills its lookup table lazily on first use; do that here, before any
+     * client thread exists, so that concurrent sessions only ever read the table. */
+    (void)nvm_crc32((const uint8_t *)"", 0);
+
     /* Accept loop with poll() for idle timeout */
     int idle_timeout_ms = cfg->idle_timeout_sec > 0
                         ? cfg->idle_timeout_sec * 1000
